@@ -13,8 +13,6 @@ from .report import VERIF
 NOT_APPLICABLE = {
     "C05": "MPO bond-channel bookkeeping depends on the runtime sparsity pattern of the interaction matrix "
            "(data-dependent shapes and mask pop-counts); deciding it statically needs enumeration or a solver",
-    "C19": "termination, bracketing and accuracy of Brent's method are statements about floating-point values "
-           "produced by arithmetic on the ordinates; no structural clause is a necessary condition",
     "C28": "norm/energy conservation are numerical consequences of unitarity and symmetric splitting; the "
            "structural prerequisites (TDVP coefficients, -i*dt exponent, is_hermitian) are obligations of C01/C02",
     "C29": "metamorphic equalities between the numerical results of two runs on transformed inputs; no "
